@@ -1,6 +1,90 @@
 (* Replays shelltrace lines on the extracted model (ShellModel) and evaluates the extracted
    reference semantics (ShellSpec) on the implementation's own outputs. *)
 
+(* The scale streams carry byte strings of 8 KB and more.  A larger minor heap keeps the model's
+   short-lived list copies (it appends at the end of a list) out of the major heap. *)
+let () = Gc.set { (Gc.get ()) with Gc.minor_heap_size = 1 lsl 20 }
+
+(* Trace syntax for byte strings (replaces the glue's plain hex; see harness/cmd/shelltrace/rle.go):
+   two hex digits per byte, or r<count>z<hex block>z for <count> copies of a block of 1..64 bytes;
+   "-" is the empty string.  The encoder is canonical and is the same algorithm as the harness's:
+   at each position the smallest period p <= 64 whose block repeats k >= 2 times over k*p >= 32
+   bytes, with the greatest such k; else one byte in hex.  Strings under 32 bytes are plain hex. *)
+let byte_tab = Array.init 256 n_of_int
+let hexval c = match c with
+  | '0'..'9' -> Char.code c - 48 | 'a'..'f' -> Char.code c - 87 | 'A'..'F' -> Char.code c - 55
+  | _ -> failwith "bad hex digit"
+let unhex s =
+  if s = "-" then [] else begin
+    let n = String.length s in
+    (* decode into a buffer of raw bytes, then build the list back to front *)
+    let b = Buffer.create (n / 2 + 16) in
+    let plain i j =
+      if (j - i) land 1 = 1 then failwith "odd number of hex digits";
+      let k = ref i in
+      while !k < j do Buffer.add_char b (Char.chr (16 * hexval s.[!k] + hexval s.[!k + 1])); k := !k + 2 done in
+    let i = ref 0 in
+    while !i < n do
+      if s.[!i] = 'r' then begin
+        let j = String.index_from s !i 'z' in
+        let k = int_of_string (String.sub s (!i + 1) (j - !i - 1)) in
+        let e = String.index_from s (j + 1) 'z' in
+        if k < 0 || k > 1 lsl 24 then failwith "bad repeat count";
+        let before = Buffer.length b in
+        plain (j + 1) e;
+        let blk = Buffer.sub b before (Buffer.length b - before) in
+        for _ = 2 to k do Buffer.add_string b blk done;
+        if k = 0 then Buffer.truncate b before;
+        i := e + 1
+      end else begin
+        let j = ref !i in
+        while !j < n && s.[!j] <> 'r' do incr j done;
+        plain !i !j;
+        i := !j
+      end
+    done;
+    let r = ref [] in
+    for k = Buffer.length b - 1 downto 0 do r := byte_tab.(Char.code (Buffer.nth b k)) :: !r done;
+    !r
+  end
+let rle_max_p = 64 and rle_min = 32
+let hex l = if l = [] then "-" else begin
+  let a = Array.of_list (List.map int_of_n l) in
+  let n = Array.length a in
+  let b = Buffer.create 64 and digits = "0123456789abcdef" in
+  let wr i j = for k = i to j - 1 do
+      Buffer.add_char b digits.[(a.(k) lsr 4) land 15]; Buffer.add_char b digits.[a.(k) land 15] done in
+  let i = ref 0 in
+  while !i < n do
+    let found = ref false in
+    if n - !i >= rle_min then begin
+      let p = ref 1 in
+      while not !found && !p <= rle_max_p && !i + 2 * !p <= n do
+        let same k = (* block k equals block 0 *)
+          let rec eq j = j >= !p || (a.(!i + k * !p + j) = a.(!i + j) && eq (j + 1)) in eq 0 in
+        let k = ref 1 in
+        while !i + (!k + 1) * !p <= n && same !k do incr k done;
+        if !k >= 2 && !k * !p >= rle_min then begin
+          Buffer.add_char b 'r'; Buffer.add_string b (string_of_int !k); Buffer.add_char b 'z';
+          wr !i (!i + !p); Buffer.add_char b 'z';
+          i := !i + !k * !p; found := true
+        end else incr p
+      done
+    end;
+    if not !found then begin wr !i (!i + 1); incr i end
+  done;
+  Buffer.contents b end
+let unhexs s = if s = "." then [] else List.map unhex (String.split_on_char ',' s)
+let hexs l = if l = [] then "." else String.concat "," (List.map hex l)
+
+(* one-slot memo: the sessions of one (input, ops) under all fragmentations are consecutive lines,
+   and neither the model nor the reference looks at the fragmentation *)
+let memo1 f =
+  let last = ref None in
+  fun k -> match !last with
+    | Some (k', v) when k' = k -> v
+    | _ -> let v = f k in last := Some (k, v); v
+
 let show_split = function
   | None -> "PANIC"
   | Some (fs, ok) -> b01 ok ^ " " ^ hexs fs
@@ -42,6 +126,15 @@ let parse_xout o =
             | [toks; t; c] -> M.XREach (unhexs toks, unhex t, c = "1") | _ -> M.XRPanic)
   | _ -> M.XRPanic
 
+let eval_session = memo1 (fun (s, rest) ->
+    let ops = xops_of rest in
+    let outs = M.run_opsx (unhex s) (M.new_scanner (unhex s)) ops in
+    let tag = function M.XEach M.O -> "a" | M.XEach (M.S M.O) -> "b" | M.XEach _ -> "c" | _ -> "" in
+    let rec zip ops outs = match ops, outs with
+      | op :: ops', o :: outs' -> show_xout (tag op) o :: zip ops' outs'
+      | _, _ -> [] in
+    String.concat ";" (zip ops outs))
+
 let eval inp =
   match words (unus inp) with
   | ["S"; s] -> show_split (M.split (unhex s))
@@ -56,14 +149,7 @@ let eval inp =
     let l = unhexs ss in
     let rec prefixes acc = function [] -> [] | x :: r -> let p = acc @ [x] in p :: prefixes p r in
     hexs (List.map M.quote l) ^ ";" ^ hexs (List.map M.join (prefixes [] l))
-  | "N" :: _k :: s :: rest ->
-    let ops = xops_of rest in
-    let outs = M.run_opsx (unhex s) (M.new_scanner (unhex s)) ops in
-    let tag = function M.XEach M.O -> "a" | M.XEach (M.S M.O) -> "b" | M.XEach _ -> "c" | _ -> "" in
-    let rec zip ops outs = match ops, outs with
-      | op :: ops', o :: outs' -> show_xout (tag op) o :: zip ops' outs'
-      | _, _ -> [] in
-    String.concat ";" (zip ops outs)
+  | "N" :: _k :: s :: rest -> eval_session (s, rest)
   | _ -> "?"
 
 let parse_split out =
@@ -85,10 +171,10 @@ let explain_session s rest out =
         if i >= String.length ops then Some "more outputs than ops" else
         if o = "PANIC" then Some "the scanner panicked" else
         if ops.[i] = 'r' then begin
-          let r = String.sub o 1 (String.length o - 1) in
-          let full = (match s with "-" -> "" | x -> x) and r' = (match r with "-" -> "" | x -> x) in
-          let lf = String.length full and lr = String.length r' in
-          if lr <= lf && String.sub full (lf - lr) lr = r' then go (i+1) fs outs' true ended
+          let full = unhex s and r' = unhex (String.sub o 1 (String.length o - 1)) in
+          let lf = List.length full and lr = List.length r' in
+          let rec drop k l = if k <= 0 then l else match l with [] -> [] | _ :: t -> drop (k - 1) t in
+          if lr <= lf && drop (lf - lr) full = r' then go (i+1) fs outs' true ended
           else Some "Rest is not a suffix of the input"
         end else begin
           match String.split_on_char ':' (String.sub o 1 (String.length o - 1)) with
@@ -113,21 +199,23 @@ let explain_session s rest out =
 
 let only_nr rest = match rest with [o] -> String.for_all (fun c -> c = 'n' || c = 'r') o | _ -> true
 
+(* the property on the implementation's observations: the extracted reference session checker
+   (ShellSession.session_okx, the function of theorem C16_sessionx, which reads Next/Rest exactly as
+   session_ok of C16_session does); the hand-written walk explain_session only words the reason *)
+let spec_session = memo1 (fun (s, rest, out) ->
+    let outs = if out = "" then [] else List.map parse_xout (String.split_on_char ';' out) in
+    if M.session_okx (unhex s) (xops_of rest) outs then None
+    else Some (match (if only_nr rest then explain_session s rest out else None) with
+               | Some r -> r
+               | None -> "observations rejected by the reference session checker (a token, Text, Complete or Err differs from the reference, Text/Complete changed after the end, or Rest is not exactly the unconsumed input)"))
+
 let spec prop inp out =
   match prop, words (unus inp) with
   | "C16", ["S"; s] ->
     let (fs, ok) = M.ref_split (unhex s) in
     if out = b01 ok ^ " " ^ hexs fs then None
     else Some ("reference tokenizer gives " ^ b01 ok ^ " " ^ hexs fs)
-  | "C16", ("N" :: _ :: s :: rest) ->
-    (* the property on the implementation's observations: the extracted reference session checker
-       (ShellSession.session_okx, the function of theorem C16_sessionx, which reads Next/Rest exactly as
-       session_ok of C16_session does); the hand-written walk explain_session only words the reason *)
-    let outs = if out = "" then [] else List.map parse_xout (String.split_on_char ';' out) in
-    if M.session_okx (unhex s) (xops_of rest) outs then None
-    else Some (match (if only_nr rest then explain_session s rest out else None) with
-               | Some r -> r
-               | None -> "observations rejected by the reference session checker (a token, Text, Complete or Err differs from the reference, Text/Complete changed after the end, or Rest is not exactly the unconsumed input)")
+  | "C16", ("N" :: _ :: s :: rest) -> spec_session (s, rest, out)
   | "C15", ["R"; ss] ->
     if out = "1 " ^ hexs (unhexs ss) then None else Some "Split(Join(ss)) differs from (ss, true)"
   | "C15", ["Q"; s] ->
